@@ -246,21 +246,21 @@ class MpHistory(History):
     def create(self):
         g, r = self.g, self.r
         k = r.below(10)
-        if k < 4:
+        if k < 3:
             e = self.recent_alt()
             if e is None:
                 return
             vp = g.vtip if r.chance(2, 3) else self.some_vbk()
             self.my_atvs.append(g.make_atv(e, vparent=vp, payout=r.choice(["010203", "aabb", "cc"])))
             self.stat("atv_created")
-        elif k < 7:
+        elif k < 5:
             es = [self.recent_alt() for _ in range(r.range(2, 4))]
             if None in es:
                 return
             vp = g.vtip if r.chance(1, 2) else self.some_vbk()
             self.my_atvs += g.make_atvs(es, vparent=vp)
             self.stat("atvs_shared_block", len(es))
-        elif k < 9:
+        elif k < 7:
             tip = self.tip()
             # the endorsed VBK block must be an ancestor of the containing block (mined on the miner's VBK tip)
             anc = []
@@ -277,7 +277,7 @@ class MpHistory(History):
             self.stat("vtb_created")
         else:
             p = g.vtip if r.chance(2, 3) else self.some_vbk()
-            for _ in range(r.range(1, 3)):
+            for _ in range(r.range(2, 4)):
                 p = g.mine_vbk(p)
             self.stat("vbk_mined")
 
@@ -413,6 +413,8 @@ class MpHistory(History):
             self.on("save")
             rep = self.on("reload")
             self.reloaded = True
+            # generate at once: if finalization is due, F10 shows here and the history ends
+            self.gen(False)
         elif name == "limits":
             self.g.emit("setlim maxvbk=%d maxvtb=%d maxatv=%d maxsize=%d" % (
                 r.choice([0, 1, 2, 3, 200]), r.choice([0, 1, 2, 200]), r.choice([0, 1, 2, 3, 1000]),
